@@ -386,6 +386,25 @@ func genLong(t *rapid.T) Case {
 				continue
 			case 1:
 				op = Op{O: "add", Vs: big("vs", 30, pbt.Size(200))}
+				if rapid.IntRange(0, 11).Draw(t, "ladder") == 7 {
+					// one call past the sizes at which an implementation may switch strategy
+					// (512, 1024, 2048, 4096), then operations at the junction with the old content
+					k := []int{513, 1025, 2049, 4097}[rapid.IntRange(0, 3).Draw(t, "ladder-size")]
+					op.Vs = make([]int, k)
+					for j := range op.Vs {
+						op.Vs[j] = (raw + j*7) % 13
+					}
+					junction := len(m)
+					c.Ops = append(c.Ops, op)
+					m = applyModel(m, op)
+					for _, o2 := range []Op{{O: "remove", I: junction}, {O: "set", I: junction - 1, V: 5}, {O: "remove", I: junction - 1}, {O: "insert", I: junction, Vs: []int{1, 2}}} {
+						if rapid.Bool().Draw(t, "junction-op") {
+							c.Ops = append(c.Ops, o2)
+							m = applyModel(m, o2)
+						}
+					}
+					continue
+				}
 			case 2:
 				op = Op{O: "prepend", Vs: big("vs", 10, 90)}
 			case 3:
